@@ -351,16 +351,24 @@ def build_props(pid, jobs=None):
 # ----------------------------------------------------------------- findings
 def load_findings(pid):
     """Open entries for pid from known_findings.json (the committed list) and, while a
-    property is being built in its own worktree, from findings/<pid>.json."""
+    property is being built in its own worktree, from findings/<pid>.json.  An entry
+    marked fixed in known_findings.json suppresses nothing, whatever findings/ says."""
     out = {}
+    fixed = set()
     for p in (os.path.join(VERIF, 'known_findings.json'), os.path.join(VERIF, 'findings', pid + '.json')):
         try:
             data = json.load(open(p))
         except IOError:
             continue
         for e in data.get('findings', []):
-            if e.get('property') == pid and e.get('status') == 'open':
+            if e.get('property') != pid:
+                continue
+            if e.get('status') == 'fixed':
+                fixed.add(e['key'])
+            elif e.get('status') == 'open':
                 out[e['key']] = e
+    for k in fixed:
+        out.pop(k, None)
     return out
 
 
